@@ -30,3 +30,36 @@ Lemma tie_directions : forall ca k,
   tp_ciphers ca k = src_cbc_ciphers_list ca (kl_enc_c k) (kl_enc k) (kl_mac_c k) (kl_mac k) /\
   tp_macs ca k = src_etm_macs_list ca (kl_enc_c k) (kl_enc k) (kl_mac_c k) (kl_mac k).
 Proof. intros ca k. repeat split; reflexivity. Qed.
+
+(* the rule, restated over the name tests and the direction lists the translator derives from the current source: the warning is carried exactly by the names that
+   pass the source's own tests in the source's own choice of lists *)
+From VProofs Require Import TerrapinProofs.
+Definition src_ciphers (ca : bool) (k : kexlists) : list string := src_cbc_ciphers_list ca (kl_enc_c k) (kl_enc k) (kl_mac_c k) (kl_mac k).
+Definition src_macs (ca : bool) (k : kexlists) : list string := src_etm_macs_list ca (kl_enc_c k) (kl_enc k) (kl_mac_c k) (kl_mac k).
+Lemma src_terrapin_rule : forall ca bs k dh rn d c n e0,
+  terrapin_free d -> db_get d c n = Some e0 ->
+  (carries (p_db (post_process ca bs k dh rn d)) c n <->
+   has_marker ca k = false /\
+   ((c = "enc" /\ src_is_chacha_ciphers n = true /\ In n (src_ciphers ca k)) \/
+    (c = "enc" /\ src_is_cbc_ciphers n = true /\ In n (src_ciphers ca k) /\ exists m, In m (src_macs ca k) /\ src_is_etm_macs m = true) \/
+    (c = "mac" /\ src_is_etm_macs n = true /\ In n (src_macs ca k) /\ exists x, In x (src_ciphers ca k) /\ src_is_cbc_ciphers x = true))).
+Proof.
+  intros ca bs k dh rn d c n e0 Hf Hg.
+  pose proof (terrapin_rule ca bs k dh rn d c n e0 Hf Hg) as R.
+  assert (Ec: src_ciphers ca k = tp_ciphers ca k) by (symmetry; apply (tie_directions ca k)).
+  assert (Em: src_macs ca k = tp_macs ca k) by (symmetry; apply (tie_directions ca k)).
+  rewrite Ec, Em.
+  assert (A: forall x, src_is_chacha_ciphers x = is_chacha x) by (intros x; symmetry; apply (tie_is_chacha x)).
+  assert (B: forall x, src_is_cbc_ciphers x = is_cbc x) by (intros x; symmetry; apply (tie_is_cbc x)).
+  assert (C: forall x, src_is_etm_macs x = is_etm x) by (intros x; symmetry; apply (tie_is_etm x)).
+  rewrite A, B, C.
+  split.
+  - intros H. apply R in H. destruct H as [Hm H]. split; [exact Hm|].
+    destruct H as [H|[H|H]]; [left; exact H| right; left | right; right].
+    + destruct H as [H1 [H2 [H3 [m [H4 H5]]]]]. repeat split; try assumption. exists m. rewrite C. tauto.
+    + destruct H as [H1 [H2 [H3 [x [H4 H5]]]]]. repeat split; try assumption. exists x. rewrite B. tauto.
+  - intros [Hm H]. apply R. split; [exact Hm|].
+    destruct H as [H|[H|H]]; [left; exact H| right; left | right; right].
+    + destruct H as [H1 [H2 [H3 [m [H4 H5]]]]]. repeat split; try assumption. exists m. rewrite C in H5. tauto.
+    + destruct H as [H1 [H2 [H3 [x [H4 H5]]]]]. repeat split; try assumption. exists x. rewrite B in H5. tauto.
+Qed.
